@@ -420,7 +420,8 @@ def run(prop_id, tier, seed, replay=None):
             seen.add(key)
             i = len(jobs)
             jobs.append(dict(id=f"P{i}", prog=c["prog"], seed=(seed * 1000003 + i) % (2 ** 31), nkeys=nkeys,
-                             extra=bool(c["core"]) or i % 4 == 0, eager=bool(c["core"]), hb=0))
+                             extra=(bool(c["core"]) and (not quick or c["core"] % 2 == 1)) or i % 6 == 0,
+                             eager=bool(c["core"]) and (not quick or c["core"] % 3 == 1), hb=0))
         nindep = 512 if quick else 4096
         for j, cc in enumerate(g.payloads("CCASE")):
             two = cc["fam"] in ("two_normal_reparam", "uniform_normal_reparam")
